@@ -10,4 +10,25 @@ valid, CONTAINMENT_INVALID = 4), every other bit must be clear -/
 def validatePolygonFlags (flags : BitVec 32) : Option H3Error :=
   if (flags &&& ~~~15#32) != 0#32 || !(BitVec.ult (flags &&& 15#32) 4#32) then some .optionInvalid else none
 
+/-- the primitive predicates `iterStepPolygonCompact` evaluates for a cell of the target resolution -/
+structure CellPrims where
+  centerIn : Bool          -- pointInsidePolygon(cell centre)
+  firstVtx : Bool          -- first polygon vertex in valid range and latLngToCell(vertex) == cell
+  boundaryInside : Bool    -- cellBoundaryInsidePolygon
+  crosses : Bool           -- cellBoundaryCrossesPolygon
+  bboxOverlap : Bool       -- bboxOverlapsBBox(polygon bbox, covering bbox of the cell)
+  bboxContainsPoly : Bool  -- bboxContainsBBox(cell bbox, polygon bbox)
+  bboxCornerIn : Bool      -- pointInsidePolygon(first corner of the cell bbox)
+  bboxCrosses : Bool       -- cellBoundaryCrossesPolygon(cell bbox as boundary)
+  deriving DecidableEq, Repr
+
+/-- the per-mode decision of polyfill.c:435-546 at the target resolution
+(modes: 0 CENTER, 1 FULL, 2 OVERLAPPING, 3 OVERLAPPING_BBOX) -/
+def acceptTarget (mode : Nat) (p : CellPrims) : Bool :=
+  ((mode == 0 || mode == 2 || mode == 3) && p.centerIn) ||
+  ((mode == 2 || mode == 3) && p.firstVtx) ||
+  ((mode == 1 || mode == 3) && p.boundaryInside) ||
+  ((mode == 2 || mode == 3) && !((mode == 1 || mode == 3) && p.boundaryInside) && p.crosses) ||
+  (mode == 3 && p.bboxOverlap && (p.bboxContainsPoly || p.bboxCornerIn || p.bboxCrosses))
+
 end H3
